@@ -7,3 +7,8 @@ open SteelVerif.C09
 #print axioms maxDepth_constant
 #print axioms depth_bounded
 #print axioms call_at_limit_overflows
+#print axioms loop_never_overflows
+#print axioms loop_operand_stack_bounded
+#print axioms frames_never_exceed_limit
+#print axioms tail_loop_any_count
+#print axioms deep_recursion_overflows
